@@ -154,6 +154,7 @@ theorem good_evalM (fetch : Nat → St → Res (Nat × St))
     · rw [if_pos h1, if_pos (hc.1 h1)]; exact iha hn.1 s1 hg
     · rw [if_neg h1, if_neg (fun h2 => h1 (hc.2 h2))]; exact ihb hn.2 s1 hg
   | add a b _ _ => intro hn; simp [noAddE] at hn
+  | gate c a _ _ => intro hn; simp [noAddE] at hn
 
 /-- an engine level whose entry points keep the invariant. -/
 structure EngGood (B : Nat → Nat) (i : List Inp) (sub : Eng) : Prop where
